@@ -35,6 +35,7 @@ RULE = (
     "class, __new__-only class; satisfied and violated), each followed by the state monitor and 16 follow-up calls; a repr fault of kind Exception may be absorbed by the "
     "repr machinery if the contract's own violation error is raised. Non-trivial = faulted run (each is a distinct (program, "
     "scenario, point, kind)); exhaustive over the points of the generated programs."
+    ' A fifth of the faulted runs and all their follow-ups are repeated while ANOTHER check of the same flow is in progress (inside a condition, inside a capture, inside the body of a method of an object with invariants).'
 )
 ASSUMPTIONS = ["the private name icontract._checkers._IN_PROGRESS is the only hook; if it is missing the state monitor is skipped and the "
                "behavioural monitor decides", "asyncio cancellation is modelled by throwing CancelledError into the coroutine at the await"]
